@@ -182,7 +182,9 @@ class Contract:
     def __init__(self, func, requires=(), ensures=(), loops=None, float_mode="R", bind=None,
                  ghost=None, lemmas=(), modifies=None, defs=(), name=None, checks=("bounds", "overflow", "narrow", "divzero", "frame"),
                  assume_types=True, note="", nan_aware=False, asserts=None, py_mode=False, inputs=None,
-                 call_facts=None, count_calls=(), rtc_prefs=(), rtc_scope=0, lists=(), vectors=False, lists3=()):
+                 call_facts=None, count_calls=(), rtc_prefs=(), rtc_scope=0, lists=(), vectors=False, lists3=(), rtc_ensures=(), rtc_defs=(), rtc_ghost=None):
+        # clauses evaluated by the run-time layer only (bounded): not proof obligations
+        self.rtc_ensures, self.rtc_defs, self.rtc_ghost = list(rtc_ensures), list(rtc_defs), dict(rtc_ghost or {})
         self.lists3 = tuple(lists3)   # parameters that are lists of lists of int lists (read-only model)
         self.vectors = vectors      # py_mode: 1-d NumPy vector semantics of pvc/npvec.py
         self.timeout_ms = 3000 if vectors else None   # formula contracts: syntactic proofs take ms; go to the finite scope early
